@@ -16,7 +16,7 @@ func init() {
 		Explanation: `R11.1 block ranges name library blocks: every OpBlockRange built in ComputeDiff takes FileIndex and BlockIndex from the block findUniqueHash returned and BlockSpan 1; the only other writer of BlockSpan is the merge in enqueue, which is control-dependent on equal file and contiguity; ` +
 			`R11.2 the pending range is flushed before any data op (in enqueue) and by a deferred closure on every return; R11.3 every operation leaves ComputeDiff through the cleaner returned by makeOperationCleaner, which forwards an empty data op only as the first op; ` +
 			`R11.4 every data-op payload is bounded by MaxDataOp by construction: its slice bounds are the pair the size-limit flush controls, a constant extent, or dominated by an explicit bound check; R11.5 every assignment to the start of the hash window (the low bound of βhash's argument) is followed, before the next such assignment or a return, by an assignment to the end of the pending-data window (the pair R11.4 identifies); R01.1 (shared) match acceptance incl. empty windows never match. ` +
-			`NOT decided: replay equality, merge completeness, wrap-around bookkeeping; the exhaustive small-alphabet enumeration the property describes belongs to a dynamic family.`,
+			`R11.6 a data op after which the scan can continue is made only under low < high (an empty one would flush the pending block range and be dropped). NOT decided: replay equality, merge completeness, wrap-around bookkeeping; the exhaustive small-alphabet enumeration the property describes belongs to a dynamic family.`,
 		Run: runC11,
 	})
 	register(&Property{
@@ -428,6 +428,48 @@ func runC11(c *core.Ctx) {
 			"this data op's payload is sliced with bounds that neither are the pair the MaxDataOp flush controls, nor have a constant extent, nor are checked against MaxDataOp: the op can exceed the 4MiB limit (the final flush of a file ending in a fresh run of more than 4MiB does)")
 	}
 	c.Floor("R11.4", "OpData literals", nD, 1)
+
+	// ---- R11.6: a data op sent while the scan goes on is not empty. Sending any op first sends the pending
+	// block range; the cleaner then drops an empty data op. An empty data op in mid-stream therefore ends the
+	// pending range for nothing, and the consecutive blocks that follow start a new one: "consecutive ranges
+	// of the same file are merged" no longer holds. Where the scan can continue after the literal, the literal
+	// is made only under low < high.
+	c.Rule("R11.6", "data ops sent in mid-stream are not empty")
+	{
+		nMid := 0
+		for _, l := range lits {
+			if l.kind != opData || l.a.Parent() != cd {
+				continue
+			}
+			dv, ok := litField(l.a, "Data")
+			if !ok {
+				continue
+			}
+			sl, ok := dv.(*ssa.Slice)
+			if !ok || sl.Low == nil || sl.High == nil {
+				continue
+			}
+			// can the scan continue: is the library lookup (or the refill) reachable from here
+			var again ssa.Instruction
+			core.Instrs(cd, func(in ssa.Instruction) {
+				if lk, ok := in.(*ssa.Lookup); ok {
+					if _, n, ok := core.FieldOf(lk.X); ok && n == "hashLookup" {
+						again = in
+					}
+				}
+			})
+			if again == nil || core.FindPath(cd, l.a, isInstr(again), nil) == nil {
+				continue
+			}
+			nMid++
+			nonEmpty := hasGuard(l.a, func(g core.Guard) bool {
+				return relHolds(g, token.LSS, func(v ssa.Value) bool { return sameExpr(v, sl.Low) }, func(v ssa.Value) bool { return sameExpr(v, sl.High) })
+			})
+			c.Check(nonEmpty, "R11.6", core.FnName(cd), "mid-stream data op "+core.Describe(dv)+" is made only when non-empty", core.InstrPos(l.a),
+				"dominated by low < high", "a data op that may be empty is sent while the scan goes on: it flushes the pending block range and is then dropped by the cleaner, so a run of consecutive matching blocks comes out as several ranges")
+		}
+		c.Floor("R11.6", "data ops after which the scan can continue", nMid, 1)
+	}
 
 	// ---- R11.5: the pending-data window ends where the hash window begins. Whenever the scan moves the start of
 	// the hash window, the end of the pending data follows before the window is moved again (or the function
